@@ -304,11 +304,59 @@ def run(tier, seed, jobs):
     res.assumptions.append(f"body part: every body of <= {3 if tier == 'quick' else 4} lines over the line alphabet {LINE_TOKENS[:5] if tier == 'quick' else LINE_TOKENS}, with and "
                            "without a final line terminator, stored through IMAP APPEND (CRLF) and by an MH tool (LF file); RETR / LIST / STAT / TOP n k for k in 0,1,2,5 "
                            "compared with the message itself (for TOP: non-blank lines only)")
+    # the front-end's relay of multi-line replies (root server -> client): RETR replies with short, long and over-long lines reach
+    # the client octet for octet, however the user process's output is segmented
+    f, k = work_relay(None)
+    res.failures.extend(f)
+    res.coverage["relay_streams"] = k
+    res.coverage["states"] += k
+    res.coverage["transitions"] += k
+    res.coverage["traces_validated_against_impl"] += k
+    res.assumptions.append("relay part: RETR replies whose longest line is 1, 100, 131071, 131072, 131073 or 300000 octets through the real POP3 front-end relay, "
+                           "fed whole, in 1000-octet and in 7-octet segments: delivered unmodified and terminated")
     return res
+
+
+def work_relay(_unit):
+    from ..runner import Failure
+
+    from ..frontend import FrontWorld
+
+    fails, n = [], 0
+    LIM = 131_072
+    for run in (1, 100, LIM - 1, LIM, LIM + 1, 300000):
+        body = b"Subject: x\r\n\r\n" + b"A" * run + b"\r\n.. dotted\r\nlast\r\n"
+        data = b"+OK %d octets\r\n" % len(body) + body + b".\r\n"
+        for chunk in (len(data), 1000, 7):
+            fw = FrontWorld()
+            try:
+                s = fw.pop3_client()
+                s.line(b"USER alice")
+                out = s.line(b"PASS alicepw")
+                if b"+OK" not in out:
+                    raise AssertionError(f"POP3 login refused in the relay part: {out!r}")
+                base = len(s.out())
+                for i in range(0, len(data), chunk):
+                    if getattr(s.intf.reader, "_eof", False) or s.writer.closed:
+                        break  # the relay gave up
+                    s.intf.reader.feed_data(data[i : i + chunk])
+                    if chunk != 7 or i % 700 == 0:
+                        fw.loop.settle()
+                fw.loop.settle()
+                got = s.out()[base:]
+                n += 1
+                if got != data:
+                    fails.append(Failure(PROP, "C20.relay-modified", {"over_limit": run >= LIM, "closed": s.writer.closed},
+                                         {"driver": "c20-relay", "run": run, "chunk": chunk}, len(data), len(got)))
+            finally:
+                fw.close()
+    return fails, n
 
 
 def replay(rec):
     rp = rec["replay"]
+    if rp.get("driver") == "c20-relay":
+        return [f for f in work_relay(None)[0] if f.replay["run"] == rp["run"] and f.replay["chunk"] == rp["chunk"]]
     if rp.get("driver") == "c20-bodies":
         return work_bodies([(rp["how"], rp["bodies"])])[0]
     if rp.get("driver") == "s":
